@@ -4,6 +4,7 @@ import DuneVerif.Proofs.C06Rank
 import DuneVerif.Proofs.C06Fix
 import DuneVerif.Proofs.C06Life
 import DuneVerif.Proofs.C06Quiet
+import DuneVerif.Proofs.C06Tie
 /-!
 # C06 — VariableSizeCommunicator delivers every item intact for any sizes / buffer size, and returns
 
@@ -658,5 +659,142 @@ example :
         [.scalar 0, .scalar 1, .seen 0, .seen 1, .data 0 .deliver, .data 0 .sendDone, .ret 1]).map fun g =>
       (g.phase, g.links.map fun x => (x.sc, x.dt.sreq == .null, x.dt.chan.isEmpty, x.dt.rreq.isPosted)))
       = some ([0, 1], [(.seen, true, true, false), (.seen, true, true, false)]) := by decide
+
+/-! ## Round four: the model functions are what the source says now
+
+`DuneVerif/Gen/C06.lean` is regenerated from variablesizecommunicator.hh on every run (tools/translators/tr_c06.py):
+every function below is the translation of the C++ body (conditions, bounds, statement order, arguments).  The
+`src_*` theorems say that, for **all** inputs, the generated definitions are the hand-written model functions all
+theorems above are about; rewriting with them transfers every theorem above to the generated definitions. -/
+
+/-- **src_tracker_buffer.**  `MessageBuffer::hasSpaceForItems`, the two `MessageBuffer` constructors (a buffer built or
+    *copied* — the buffer vectors are filled by copy construction — for size `B` has `size_ = B`, at least `B` cells and
+    the position 0 resp. the original's), `InterfaceTracker::finished / indicesLeft / offset /
+    skipZeroIndices / moveToNextIndex / increment` as read from the source are the model's, for every buffer and every
+    tracker (any position, with or without a size array, sizes of any length). -/
+theorem src_tracker_buffer (b : MessageBuffer α) (n : Nat) (t : Tracker) :
+    Gen.hasSpaceForItems b.position b.size n = b.hasSpaceForItems n ∧
+    Gen.resetPosition = b.reset.position ∧
+    (∀ B p, B ≤ (Gen.ctorBuffer B p).1 ∧ (Gen.ctorBuffer B p).2.1 = B ∧ (Gen.ctorBuffer B p).2.2 = 0) ∧
+    (∀ B p, B ≤ (Gen.copyBuffer B p).1 ∧ (Gen.copyBuffer B p).2.1 = B ∧ (Gen.copyBuffer B p).2.2 = p) ∧
+    Gen.trackerFinished t.index t.ifaceSize = t.finished ∧
+    Gen.indicesLeft t.index t.ifaceSize = t.indicesLeft ∧
+    Gen.trackerOffset t.index = t.offset ∧
+    Gen.skipZeroIndices t = t.skipZeroIndices ∧
+    Gen.moveToNextIndex t = t.moveToNextIndex ∧
+    Gen.increment t n = t.increment n :=
+  ⟨gen_hasSpace b n, gen_resetPosition, gen_ctorBuffer, gen_copyBuffer, gen_finished t, gen_indicesLeft t, gen_offset t, gen_skipZeroIndices t,
+   gen_moveToNextIndex t, gen_increment t n⟩
+
+/-- non-vacuity: the generated `skipZeroIndices` really walks (two zero-size indices skipped, stops at size 4), the
+    generated `moveToNextIndex` advances and skips, `hasSpaceForItems` accepts an exact fit and rejects one more. -/
+example : ((Gen.skipZeroIndices ⟨0, 3, [7, 8, 9, 6], true, [0, 0, 4, 0], 0⟩).index,
+           (Gen.moveToNextIndex ⟨0, 0, [7, 8, 9, 6], true, [2, 0, 0, 1], 0⟩).iface,
+           Gen.hasSpaceForItems 2 5 3, Gen.hasSpaceForItems 2 5 4) = (5, [6], true, false) := by decide
+
+/-- **src_pack_unpack.**  `PackEntries`, `UnpackEntries` and `UnpackSizeEntries` as read from the source (both branches,
+    `noIndices`, the loop bounds, the `hasSpaceForItems` test, the statements of the loop bodies in their order, the
+    arguments of `gather` / `scatter` / `std::copy`, the returned count) compute exactly `packEntries`,
+    `unpackEntries`, `unpackSizeEntries` — for every handle, tracker, buffer, `MPI_Get_count` value and call history. -/
+theorem src_pack_unpack (h : Handle α) (t : Tracker) (b : MessageBuffer α) (count : Nat) (cs : List (Call α))
+    (bs : MessageBuffer Nat) (dst : List Nat) :
+    Gen.packEntries h t b = packEntries h t b ∧
+    Gen.unpackEntries t b count cs = unpackEntries t b count cs ∧
+    Gen.unpackSizeEntries t bs dst = unpackSizeEntries t bs dst :=
+  ⟨gen_packEntries h t b, gen_unpackEntries t b count cs, gen_unpackSizeEntries t bs dst⟩
+
+/-- non-vacuity: the generated `PackEntries` packs the indices 2 and 1 (3 items) into a buffer of 3 and stops before
+    index 3; the generated `UnpackEntries` hands the 3 items to the receive indices 5 and 6 with counts 2 and 1;
+    fixed size 2 in a buffer of 5: two indices per message. -/
+example :
+    let h : Handle Nat := ⟨false, fun i => List.replicate i (10 + i)⟩
+    let r := Gen.packEntries h (Tracker.mk' 0 [2, 1, 3] 0) (MessageBuffer.new 3)
+    (r.1, r.2.1.iface, r.2.2.cells,
+     (Gen.unpackEntries ⟨0, 0, [5, 6, 7], true, [2, 1, 3], 0⟩ ((MessageBuffer.new 3).received r.2.2.cells) 3 []).2.2,
+     (Gen.packEntries (⟨true, fun i => [i, i]⟩ : Handle Nat) (Tracker.mk' 0 [1, 2, 3] 2) (MessageBuffer.new 5)).1)
+      = (3, [3], [12, 12, 11], [⟨5, 2, [12, 12]⟩, ⟨6, 1, [11]⟩], 4) := by decide
+
+/-- **src_setup_requests.**  `SetupSendRequest` (reset, `PackEntries`, the loop over trailing zero-size indices, the guard
+    `if(size)` and the count of `MPI_Issend`) and `SetupRecvRequest` (reset, `skipZeroIndices`, the guard
+    `if(indicesLeft())`, count = the whole buffer) as read from the source are `setupSend` and the *repaired*
+    `setupRecv`; `SizeDataHandle` as read from the source (fixed size, one item per index: the user handle's `size(i)`)
+    is the model's `sizeHandle`, and it writes as many items as it announces. -/
+theorem src_setup_requests {β : Type} (h : Handle α) (t : Tracker) (b : MessageBuffer α) (b' : MessageBuffer β) (B : Nat) :
+    Gen.setupSend h t b = setupSend h t b ∧
+    Gen.setupRecv t b' = setupRecv true t b' ∧
+    Gen.recvCount B = B ∧
+    sizeHandle h = ⟨Gen.sizeHandleFixed, fun i => Gen.sizeHandleGather h.size i⟩ ∧
+    (∀ i, (Gen.sizeHandleGather h.size i).length = Gen.sizeHandleSize i) :=
+  ⟨gen_setupSend h t b, gen_setupRecv t b', gen_recvCount B, by simp [sizeHandle, Gen.sizeHandleFixed, Gen.sizeHandleGather],
+   fun i => by simp [Gen.sizeHandleGather, Gen.sizeHandleSize]⟩
+
+/-- non-vacuity: a message is produced and the trailing zero-size index is skipped; a receive tracker whose remaining
+    sizes are all zero posts no receive (the repaired behaviour), one with a non-zero size does. -/
+example :
+    let h : Handle Nat := ⟨false, fun i => List.replicate i (10 + i)⟩
+    ((Gen.setupSend h (Tracker.mk' 0 [2, 0, 0] 0) (MessageBuffer.new 3)).message,
+     (Gen.setupSend h (Tracker.mk' 0 [2, 0, 0] 0) (MessageBuffer.new 3)).tracker.iface,
+     (Gen.setupRecv ⟨0, 0, [5, 6], true, [0, 0], 0⟩ (MessageBuffer.new 3 : MessageBuffer Nat)).2.2,
+     (Gen.setupRecv ⟨0, 0, [5, 6], true, [0, 1], 0⟩ (MessageBuffer.new 3 : MessageBuffer Nat)).2.2)
+      = (some [12, 12], [], false, true) := by decide
+
+/-- **src_constants.**  Data of the source the rank-level models rely on: the data send and the data receive use one
+    tag, the scalar send and receive of `sendFixedSize` use one tag and exactly one item, the two tags differ (a scalar
+    can never be matched with a data receive: `FixSys` keeps them on separate channels); every `MessageBuffer` of
+    `communicateFixedSize`, `communicateSizes`, `communicateVariableSize` is built with `maxBufferSize_`
+    whatever the interface; the constructors without a size argument agree on one positive default; each loop counter
+    of the variable-size path is initialised by counting the non-null requests of *its own* request vector
+    (`VarSys` re-initialises the counters exactly so); the three wrappers hand `checkAndContinue` the request vectors,
+    functors and flags the small-step machine `Pair` is built from (scalar completions set up the data receive and are
+    not counted twice; send completions repack; receive completions unpack with `MPI_Get_count` iff the handle is
+    not fixed-size, and re-post). -/
+theorem src_constants :
+    Gen.dataSendTag = Gen.dataRecvTag ∧ Gen.scalarSendTag = Gen.scalarRecvTag ∧ Gen.scalarSendTag ≠ Gen.dataSendTag ∧
+    Gen.scalarSendCount = 1 ∧ Gen.scalarRecvCount = 1 ∧
+    (∀ m n, ∀ x ∈ Gen.bufferSizes m n, x = m) ∧ Gen.bufferSizes 1 1 ≠ [] ∧
+    (∀ x ∈ Gen.defaultBufferSizes, x = Gen.defaultBufferSize) ∧ 0 < Gen.defaultBufferSize ∧
+    Gen.counterInit = [("communicateSizes", "size_to_send", "send_requests"),
+                       ("communicateSizes", "size_to_recv", "recv_requests"),
+                       ("communicateVariableSize", "no_to_send", "send_requests"),
+                       ("communicateVariableSize", "no_to_recv", "recv_requests")] ∧
+    Gen.wrappers =
+      [("receiveSizeAndSetupReceive", ["p0", "p1", "p2", "p3", "p4", "p5", "NullPackUnpackFunctor", "SetupRecvRequest", "false"]),
+       ("checkSendAndContinueSending", ["p0", "p1", "p2", "p2", "p3", "p4", "NullPackUnpackFunctor", "SetupSendRequest"]),
+       ("checkReceiveAndContinueReceiving", ["p0", "p1", "p2", "p2", "p3", "p4", "UnpackEntries", "SetupRecvRequest", "true",
+                                             "!Impl::callFixedSize(p0)"])] := by
+  refine ⟨by decide, by decide, by decide, by decide, by decide, fun m n x hx => ?_, by decide, by decide, by decide,
+    by decide, by decide⟩
+  simp [Gen.bufferSizes] at hx
+  omega
+
+/-- non-vacuity of the last clauses: the default is the documented 32768 and there are two such constructors. -/
+example : Gen.defaultBufferSizes = [32768, 32768] ∧ Gen.dataSendTag = 933399 := by decide
+
+/-- **src_directions_trackers.**  "Both directions": as read from the source, `forward()` instantiates `communicate<true>`,
+    `backward()` `communicate<false>`, the direction parameter is handed down unchanged to `communicateFixedSize`,
+    `communicateVariableSize`, `communicateSizes`, `setupInterfaceTrackers` and `InterfaceInformationChooser` (checked by
+    the translator: anything else is a translation error), and the chooser picks (first, second) for forward and
+    (second, first) for backward — the lists `IfaceEntry.send / recv` of the model.  `setupInterfaceTrackers` as read from
+    the source (initial value of the carried fixed size, its update per neighbour from the first index of the *send* list,
+    the tracker arguments rank / list / fixed size / `allocateSizes = (fixedsize == 0)` for the receive tracker only)
+    unfolds the model's `setupInterfaceTrackers`, for every handle, direction and interface map. -/
+theorem src_directions_trackers (h : Handle α) (fwd : Bool) (e : IfaceEntry) (es : List IfaceEntry) (fs : Nat) :
+    Gen.forwardFlag = true ∧ Gen.backwardFlag = false ∧
+    Gen.chooseSend fwd e.first e.second = e.send fwd ∧ Gen.chooseRecv fwd e.first e.second = e.recv fwd ∧
+    setupInterfaceTrackers h fwd (e :: es) = setupTrackersLoop h fwd (e :: es) (Gen.trackersInitFixed h.fixed) ∧
+    (let fs' := Gen.trackersStepFixed h.fixed fs (e.send fwd).length (e.recv fwd).length (h.size ((e.send fwd).headD 0))
+     setupTrackersLoop h fwd (e :: es) fs =
+       (Tracker.mk' e.rank (e.send fwd) fs' (Gen.sendAllocSizes fs'),
+        Tracker.mk' e.rank (e.recv fwd) fs' (Gen.recvAllocSizes fs')) :: setupTrackersLoop h fwd es fs') :=
+  ⟨by decide, by decide, (gen_chooser fwd e).1, (gen_chooser fwd e).2, gen_setupTrackers_init h fwd (e :: es),
+   gen_setupTrackers_step h fwd e es fs⟩
+
+/-- non-vacuity: backward swaps the lists; a fixed-size handle's size is taken from the first *send* index and carried
+    over a neighbour with an empty send list (the value 3 of the first neighbour reaches the second). -/
+example :
+    (Gen.chooseSend false [1, 2] [3], Gen.chooseRecv false [1, 2] [3],
+     Gen.trackersStepFixed true (Gen.trackersInitFixed true) 2 0 3,
+     Gen.trackersStepFixed true 3 0 4 99, Gen.recvAllocSizes 0, Gen.recvAllocSizes 3) =
+      ([3], [1, 2], 3, 3, true, false) := by decide
 
 end DV.C06
